@@ -113,7 +113,10 @@ type Case struct {
 	Samples   []Sample               `json:"samples"`
 	Frags     []FragSpec             `json:"frags"`
 	Styp      bool                   `json:"styp,omitempty"` // every fragment is a segment of its own that starts with styp
-	SeqStart  uint32                 `json:"seqStart"`
+	// MoovExtra are appended to the children of moov (after mvex). Not combined with FragOpts.Base == 1
+	// (absolute offsets are not adjusted).
+	MoovExtra []Extra `json:"moovExtra,omitempty"`
+	SeqStart  uint32  `json:"seqStart"`
 
 	Scheme string           `json:"scheme"` // cenc | cbcs
 	Key    harness.HexBytes `json:"key"`
@@ -161,9 +164,9 @@ type Built struct {
 	Layout fragbuild.FileLayout
 	Init   []byte
 	Segs   [][]byte
-	File   []byte // init ++ segments
-	Truth  *fragbuild.Truth
-	Data   [][]byte // sample data
+	File   []byte           // init ++ segments
+	Truth  *fragbuild.Truth // nil when MoovExtra shifted the offsets
+	Data   [][]byte         // sample data
 	// FragOf[i] = fragment index of sample i; FirstOf[f] = first sample of fragment f
 	FragOf  []int
 	FirstOf []int
@@ -260,6 +263,30 @@ func (c *Case) BuildWith(stsd []byte, data [][]byte, inTraf func(f int, own []fr
 	if err != nil {
 		return nil, err
 	}
+	if len(c.MoovExtra) > 0 {
+		for _, f := range c.Frags {
+			if f.Opts.Base == 1 {
+				return nil, fmt.Errorf("cryptgen: MoovExtra together with an explicit base_data_offset")
+			}
+		}
+		// moov is the last box of the init segment: append the boxes and patch its size
+		pos := 0
+		for pos+8 <= len(b.Init) && string(b.Init[pos+4:pos+8]) != "moov" {
+			pos += int(binary.BigEndian.Uint32(b.Init[pos:]))
+		}
+		if pos+8 > len(b.Init) || pos+int(binary.BigEndian.Uint32(b.Init[pos:])) != len(b.Init) {
+			return nil, fmt.Errorf("cryptgen: moov is not the last box of the init segment")
+		}
+		init := append([]byte(nil), b.Init...)
+		for _, x := range c.MoovExtra {
+			body := append(append([]byte(nil), x.UUID...), x.Payload...)
+			init = binary.BigEndian.AppendUint32(init, uint32(8+len(body)))
+			init = append(init, (x.Type + "    ")[:4]...)
+			init = append(init, body...)
+		}
+		binary.BigEndian.PutUint32(init[pos:], uint32(len(init)-pos))
+		b.Init, b.Truth = init, nil // the offsets of Truth no longer apply
+	}
 	b.File = fragbuild.Concat(b.Init, b.Segs, nil)
 	for f, fs := range c.Frags {
 		b.FirstOf = append(b.FirstOf, len(b.FragOf))
@@ -268,13 +295,4 @@ func (c *Case) BuildWith(stsd []byte, data [][]byte, inTraf func(f int, own []fr
 		}
 	}
 	return b, nil
-}
-
-// FragTruths returns the fragment truths in file order.
-func (b *Built) FragTruths() []fragbuild.FragTruth {
-	var out []fragbuild.FragTruth
-	for _, s := range b.Truth.Segments {
-		out = append(out, s.Frags...)
-	}
-	return out
 }
